@@ -63,7 +63,9 @@ CHECKS = {
             "maximal munch) must be accepted by the real parser; (i) every tree emitted by real search runs is serialised, parsed "
             "back through Fandango.parse, checked with cli.utils.validate and the re-parsed trees are judged by TLC (Trace_Tree); "
             "the corpus includes grammars in which a named empty-deriving symbol is expected at several places of one input "
-            "position (Earley.tla: AcceptsAtEnd fails without the catch-up of predict, holds with the guarded one)",
+            "position (Earley.tla: AcceptsAtEnd fails without the catch-up of predict, holds with the guarded one); (iii) for "
+            "grammars that compile to plain rules the chart of the real parse (item cores per column) is compared with the closure "
+            "EarleyChart.tla computes over the implementation's own compiled rules, and the model's accept verdict with the enumeration",
             "bounded: 40 / 500 grammars, words <= 5 / 6 units, 40 / 600 search runs; the class is computed per word from the "
             "enumeration (narrower than the property's, never wider); CPython re trusted for maximal munch",
             "TLC-enumerated languages replayed into the real parser + round trip of generated trees judged by TLC"),
